@@ -350,4 +350,346 @@ theorem inv_remove (C : Ctx) (hreg : CacheRegular C.env.cache) (st : St) (path :
             cases r <;> simpa using this
           · simpa using hi1
 
+/-! ## Creation and replacement -/
+
+theorem inv_opChmod (C : Ctx) (st : St) (parent : Handle) (name : Name) (mode : Nat) (r : Bool) (st' : St)
+    (hi : Inv C st.fs) (hg : ¬ G C (parent ++ [name])) (h : opChmod C.env st parent name mode = (r, st')) :
+    Inv C st'.fs := by
+  unfold opChmod hook at h
+  have := fun fs' => inv_fsChmod C st.fs fs' parent name (mode % 512) hi hg
+  grind
+
+theorem inv_crossDevice (C : Ctx) (st : St) (key : Path × List UInt8) (sf : SFile) (mode : Nat) (parent : Handle)
+    (name : Name) (replace : Bool) (r : Option String) (st' : St) (hi : Inv C st.fs)
+    (hg : replace = true → ¬ G C (parent ++ [name]))
+    (h : crossDevice C.env st key sf mode parent name replace = (r, st')) : Inv C st'.fs := by
+  unfold crossDevice at h
+  rcases hh : hook C.env st .mktemp tmpPattern with ⟨a, st1⟩
+  have h1 : st1.fs = st.fs := by have := hook_fs C.env st .mktemp tmpPattern; rw [hh] at this; exact this
+  rw [hh] at h
+  simp only at h
+  split at h
+  · simp only [Prod.mk.injEq] at h; rw [← h.2, h1]; exact hi
+  · cases hd : dirAt st1.fs parent with
+    | none => rw [hd] at h; simp only [Prod.mk.injEq] at h; rw [← h.2, h1]; exact hi
+    | some cs =>
+      rw [hd] at h
+      simp only at h
+      cases hp : fsPut st1.fs parent (C.env.tmpName st1.tmpCount (akeys cs)) (Node.file sf.data 0o600 0 0) false with
+      | none => rw [hp] at h; simp only [Prod.mk.injEq] at h; rw [← h.2, h1]; exact hi
+      | some fs2 =>
+        rw [hp] at h
+        simp only at h
+        have hi1 : Inv C st1.fs := by rw [h1]; exact hi
+        obtain ⟨hi2, hgt⟩ := inv_fsPut C st1.fs fs2 parent _ _ false hi1 (by simp) hp
+        generalize htmp : C.env.tmpName st1.tmpCount (akeys cs) = tmp at h hgt
+        rcases hc : opChmod C.env { st1 with fs := fs2, tmpCount := st1.tmpCount + 1 } parent tmp mode with ⟨b, st3⟩
+        have hi3 := inv_opChmod C _ parent tmp mode b st3 hi2 hgt hc
+        rw [hc] at h
+        cases b with
+        | false =>
+          simp only at h
+          rcases hu : opUnlink C.env st3 parent tmp with ⟨b2, st4⟩
+          have := inv_opUnlink C st3 parent tmp b2 st4 hi3 hgt hu
+          rw [hu] at h
+          simp only [Prod.mk.injEq] at h; rw [← h.2]; exact this
+        | true =>
+          simp only at h
+          rcases hh5 : hook C.env st3 .rename name with ⟨a5, st5⟩
+          have h5 : st5.fs = st3.fs := by have := hook_fs C.env st3 .rename name; rw [hh5] at this; exact this
+          have hi5 : Inv C st5.fs := by rw [h5]; exact hi3
+          rw [hh5] at h
+          simp only at h
+          split at h
+          · -- the intermediate file could not be moved
+            rcases hu : opUnlink C.env st5 parent tmp with ⟨b2, st6⟩
+            have := inv_opUnlink C st5 parent tmp b2 st6 hi5 hgt hu
+            rw [hu] at h
+            simp only [Prod.mk.injEq] at h; rw [← h.2]; exact this
+          · rename_i fs7 hmoved
+            simp only [Prod.mk.injEq] at h
+            rw [← h.2]
+            simp only
+            -- `moved = some fs7`
+            split at hmoved
+            · simp at hmoved
+            · cases hnode : (dirAt st5.fs parent).bind (aget tmp) with
+              | none => rw [hnode] at hmoved; simp at hmoved
+              | some node =>
+                rw [hnode] at hmoved
+                simp only at hmoved
+                cases hp2 : fsPut st5.fs parent name node replace with
+                | none => rw [hp2] at hmoved; simp at hmoved
+                | some fs6 =>
+                  rw [hp2] at hmoved
+                  simp only [Option.bind_some] at hmoved
+                  obtain ⟨hi6, _⟩ := inv_fsPut C st5.fs fs6 parent name node replace hi5 hg hp2
+                  exact inv_fsUnlink C fs6 fs7 parent tmp hi6 hgt hmoved
+
+theorem inv_findAndMove (C : Ctx) (st : St) (path : Path) (target : Entry) (parent : Handle) (name : Name)
+    (replace : Bool) (r : Option String) (st' : St) (hi : Inv C st.fs)
+    (hg : replace = true → ¬ G C (parent ++ [name]))
+    (h : findAndMove C.env st path target parent name replace = (r, st')) : Inv C st'.fs := by
+  unfold findAndMove at h
+  simp only at h
+  split at h
+  · simp only [Prod.mk.injEq] at h; rw [← h.2]; exact hi
+  · split at h
+    · -- no staged file
+      simp only [hook] at h
+      grind
+    · rename_i sf0 hsf
+      split at h
+      · simp only [Prod.mk.injEq] at h; rw [← h.2]; exact hi
+      · generalize hsfv : (if (if target.props.executable = true then markExecutableForReaders C.env.fileMode
+            else C.env.fileMode) % 512 != 0 then
+            ({ sf0 with perm := (if target.props.executable = true then markExecutableForReaders C.env.fileMode
+              else C.env.fileMode) % 512 } : SFile) else sf0) = sf at h
+        generalize hmode : (if target.props.executable = true then markExecutableForReaders C.env.fileMode
+            else C.env.fileMode) = mode at h
+        rcases hh : hook C.env { st with staged := aset (path, target.props.digest) sf st.staged } .rename name
+          with ⟨a, st1⟩
+        have h1 : st1.fs = st.fs := by
+          have := hook_fs C.env { st with staged := aset (path, target.props.digest) sf st.staged } .rename name
+          rw [hh] at this; exact this
+        have hi1 : Inv C st1.fs := by rw [h1]; exact hi
+        rw [hh] at h
+        simp only at h
+        cases a with
+        | exdev =>
+          simp only at h
+          exact inv_crossDevice C st1 _ sf mode parent name replace r st' hi1 hg h
+        | fail => simp only [Prod.mk.injEq] at h; rw [← h.2]; exact hi1
+        | pass =>
+          simp only at h
+          cases hp : fsPut st1.fs parent name sf.toNode replace with
+          | none => rw [hp] at h; simp only [Prod.mk.injEq] at h; rw [← h.2]; exact hi1
+          | some fs2 =>
+            rw [hp] at h; simp only [Prod.mk.injEq] at h; rw [← h.2]
+            exact (inv_fsPut C st1.fs fs2 parent name _ replace hi1 hg hp).1
+        | cancel =>
+          simp only at h
+          cases hp : fsPut st1.fs parent name sf.toNode replace with
+          | none => rw [hp] at h; simp only [Prod.mk.injEq] at h; rw [← h.2]; exact hi1
+          | some fs2 =>
+            rw [hp] at h; simp only [Prod.mk.injEq] at h; rw [← h.2]
+            exact (inv_fsPut C st1.fs fs2 parent name _ replace hi1 hg hp).1
+
+theorem inv_swapFile (C : Ctx) (hreg : CacheRegular C.env.cache) (st : St) (path : Path) (oldE newE : Entry)
+    (r : Option String) (st' : St) (hi : Inv C st.fs) (he : C.ExpP path oldE.props)
+    (h : swapFile C.env st path oldE newE = (r, st')) : Inv C st'.fs := by
+  unfold swapFile at h
+  have hws := walkToParent_spec C.env st path true
+  rcases hwk : walkToParent C.env st path true with ⟨w, st1⟩
+  rw [hwk] at hws h
+  simp only at hws
+  have hi1 : Inv C st1.fs := by rw [hws.1]; exact hi
+  cases w with
+  | none => simp only [Prod.mk.injEq] at h; rw [← h.2]; exact hi1
+  | some hn =>
+    obtain ⟨parent, name⟩ := hn
+    have hq := hws.2 parent name rfl
+    simp only at h
+    rcases hc : ensureExpectedFile C.env st1 parent name path oldE with ⟨r1, st2⟩
+    have hfs := (ensureExpectedFile_spec C.env st1 parent name path oldE r1 st2 hc).1
+    have hi2 : Inv C st2.fs := by rw [hfs]; exact hi1
+    rw [hc] at h
+    cases r1 with
+    | some e => simp only [Prod.mk.injEq] at h; rw [← h.2]; exact hi2
+    | none =>
+      have hg := notG_of_ensureExpectedFile C hreg st1 parent name path oldE st2 hi1 hq he hc
+      simp only at h
+      split at h
+      · rcases hcm : opChmod C.env st2 parent name
+            (if newE.props.executable = true then markExecutableForReaders C.env.fileMode else C.env.fileMode)
+          with ⟨b, st3⟩
+        have := inv_opChmod C st2 parent name _ b st3 hi2 hg hcm
+        rw [hcm] at h
+        cases b <;> (simp only [Prod.mk.injEq] at h; rw [← h.2]; exact this)
+      · exact inv_findAndMove C st2 path newE parent name true r st' hi2 (fun _ => hg) h
+
+theorem inv_createSymbolicLink (C : Ctx) (st : St) (parent : Handle) (name : Name) (path : Path) (target : Entry)
+    (r : Option String) (st' : St) (hi : Inv C st.fs)
+    (h : createSymbolicLink C.env st parent name path target = (r, st')) : Inv C st'.fs := by
+  unfold createSymbolicLink at h
+  split at h
+  · simp only [Prod.mk.injEq] at h; rw [← h.2]; exact hi
+  · split at h
+    · simp only [Prod.mk.injEq] at h; rw [← h.2]; exact hi
+    · split at h
+      · simp only [Prod.mk.injEq] at h; rw [← h.2]; exact hi
+      · rcases hh : hook C.env st .symlink name with ⟨a, st1⟩
+        have h1 : st1.fs = st.fs := by have := hook_fs C.env st .symlink name; rw [hh] at this; exact this
+        have hi1 : Inv C st1.fs := by rw [h1]; exact hi
+        rw [hh] at h
+        simp only at h
+        split at h
+        · simp only [Prod.mk.injEq] at h; rw [← h.2]; exact hi1
+        · cases hs : fsSymlink st1.fs parent name target.props.target with
+          | none => rw [hs] at h; simp only [Prod.mk.injEq] at h; rw [← h.2]; exact hi1
+          | some fs2 =>
+            rw [hs] at h
+            simp only at h
+            have hi2 := inv_fsSymlink C st1.fs fs2 parent name _ hi1 hs
+            -- permission mode 0: the tree is not touched any more
+            have hch : ∀ b st3, opChmod C.env { st1 with fs := fs2 } parent name 0 = (b, st3) → st3.fs = fs2 := by
+              intro b st3 hc
+              unfold opChmod hook at hc
+              grind
+            rcases hc : opChmod C.env { st1 with fs := fs2 } parent name 0 with ⟨b, st3⟩
+            have h3 := hch b st3 hc
+            rw [hc] at h
+            cases b <;> (simp only [Prod.mk.injEq] at h; rw [← h.2]; simpa [h3] using hi2)
+
+/-- What `createDirectory` must guarantee for its content loop. -/
+def MkSpec (C : Ctx) (rec : MkRec) : Prop :=
+  ∀ st h n p e, Inv C st.fs → Inv C (rec st h n p e).2.fs
+
+theorem createLoop_spec (C : Ctx) (rec : MkRec) (hrec : MkSpec C rec) (dirH : Handle) (path : Path)
+    (target : Contents) (names : List Name) :
+    ∀ (acc : Contents) (st : St), Inv C st.fs →
+      Inv C (createLoop C.env rec dirH path target names acc st).2.fs := by
+  induction names with
+  | nil => intro acc st hi; simpa [createLoop] using hi
+  | cons n rest ih =>
+    intro acc st hi
+    unfold createLoop
+    split
+    · exact hi
+    · cases hl : lookup n target with
+      | none => exact ih acc st hi
+      | some entry =>
+        simp only
+        split
+        · have hr := hrec st dirH n (path ++ [n]) entry hi
+          rcases hrc : rec st dirH n (path ++ [n]) entry with ⟨c, st1⟩
+          rw [hrc] at hr
+          cases c <;> exact ih _ _ hr
+        · split
+          · rcases hf : findAndMove C.env st (path ++ [n]) entry dirH n false with ⟨r, st1⟩
+            have := inv_findAndMove C st (path ++ [n]) entry dirH n false r st1 hi (by simp) hf
+            cases r <;> exact ih _ _ (by simpa using this)
+          · split
+            · rcases hf : createSymbolicLink C.env st dirH n (path ++ [n]) entry with ⟨r, st1⟩
+              have := inv_createSymbolicLink C st dirH n (path ++ [n]) entry r st1 hi hf
+              cases r <;> exact ih _ _ (by simpa using this)
+            · exact ih _ _ (by simpa using hi)
+
+theorem createDirectory_spec (C : Ctx) (fuel : Nat) : MkSpec C (createDirectory C.env fuel) := by
+  induction fuel with
+  | zero => intro st h n p e hi; simpa [createDirectory] using hi
+  | succ fuel ih =>
+    intro st parent name path target hi
+    unfold createDirectory
+    split
+    · simpa using hi
+    · rcases hh : hook C.env st .mkdir name with ⟨a, st1⟩
+      have h1 : st1.fs = st.fs := by have := hook_fs C.env st .mkdir name; rw [hh] at this; exact this
+      have hi1 : Inv C st1.fs := by rw [h1]; exact hi
+      simp only
+      split
+      · simpa using hi1
+      · cases hm : fsMkdir st1.fs parent name with
+        | none => simpa using hi1
+        | some fs2 =>
+          simp only
+          obtain ⟨hi2, hg⟩ := inv_fsMkdir C st1.fs fs2 parent name hi1 hm
+          rcases hc : opChmod C.env { st1 with fs := fs2 } parent name C.env.dirMode with ⟨b, st3⟩
+          have hi3 := inv_opChmod C _ parent name _ b st3 hi2 hg hc
+          cases b with
+          | false => simpa using hi3
+          | true =>
+            simp only
+            split
+            · exact hi3
+            · rcases hh4 : hook C.env st3 .opendir name with ⟨a4, st4⟩
+              have h4 : st4.fs = st3.fs := by have := hook_fs C.env st3 .opendir name; rw [hh4] at this; exact this
+              have hi4 : Inv C st4.fs := by rw [h4]; exact hi3
+              simp only
+              split
+              · simpa using hi4
+              · cases hd : dirAt st4.fs (parent ++ [name]) with
+                | none => simpa using hi4
+                | some cs =>
+                  simp only
+                  have := createLoop_spec C (createDirectory C.env fuel) ih (parent ++ [name]) path target.children
+                    (C.env.ord (keys target.children)) [] st4 hi4
+                  rcases hcl : createLoop C.env (createDirectory C.env fuel) (parent ++ [name]) path target.children
+                    (C.env.ord (keys target.children)) [] st4 with ⟨acc, st5⟩
+                  rw [hcl] at this
+                  exact this
+
+theorem inv_create (C : Ctx) (st : St) (path : Path) (target : Option Entry) (hi : Inv C st.fs) :
+    Inv C (create C.env st path target).2.fs := by
+  cases target with
+  | none => simpa [create] using hi
+  | some e =>
+    unfold create
+    have hws := walkToParent_spec C.env st path false
+    rcases hwk : walkToParent C.env st path false with ⟨r, st1⟩
+    rw [hwk] at hws
+    simp only at hws
+    have hi1 : Inv C st1.fs := by rw [hws.1]; exact hi
+    cases r with
+    | none => simpa using hi1
+    | some hn =>
+      obtain ⟨parent, name⟩ := hn
+      simp only
+      split
+      · exact createDirectory_spec C e.size st1 parent name path e hi1
+      · split
+        · rcases hf : findAndMove C.env st1 path e parent name false with ⟨r, st2⟩
+          have := inv_findAndMove C st1 path e parent name false r st2 hi1 (by simp) hf
+          cases r <;> simpa using this
+        · split
+          · rcases hf : createSymbolicLink C.env st1 parent name path e with ⟨r, st2⟩
+            have := inv_createSymbolicLink C st1 parent name path e r st2 hi1 hf
+            cases r <;> simpa using this
+          · simpa using hi1
+
+/-! ## The whole transition -/
+
+theorem inv_step (C : Ctx) (hreg : CacheRegular C.env.cache) (st : St) (t : Change) (hi : Inv C st.fs)
+    (hw : ∀ e, t.old = some e → Within C t.path e) : Inv C (step C.env st t).2.fs := by
+  unfold step
+  split
+  · simpa using hi
+  · have hrm : ∀ o, o = t.old → Inv C (remove C.env st t.path o).2.fs :=
+      fun o ho => inv_remove C hreg st t.path o hi (fun e he => hw e (by rw [← ho]; exact he))
+    split
+    · rename_i o n ho hn
+      split
+      · rcases hs : swapFile C.env st t.path o n with ⟨r, st1⟩
+        have := inv_swapFile C hreg st t.path o n r st1 hi (hw o ho).props hs
+        cases r <;> simpa using this
+      · have h1 := hrm (some o) ho.symm
+        rcases hr : remove C.env st t.path (some o) with ⟨r, st1⟩
+        rw [hr] at h1
+        cases r with
+        | some e => exact h1
+        | none => exact inv_create C st1 t.path (some n) h1
+    · have h1 := hrm t.old rfl
+      rcases hr : remove C.env st t.path t.old with ⟨r, st1⟩
+      rw [hr] at h1
+      cases r with
+      | some e => exact h1
+      | none => exact inv_create C st1 t.path t.new h1
+
+theorem inv_transition (C : Ctx) (hreg : CacheRegular C.env.cache) (plan : List Change) :
+    ∀ (st : St), Inv C st.fs → (∀ t ∈ plan, ∀ e, t.old = some e → Within C t.path e) →
+      Inv C (transition C.env st plan).2.fs := by
+  induction plan with
+  | nil => intro st hi _; simpa [transition] using hi
+  | cons t ts ih =>
+    intro st hi hw
+    unfold transition
+    have h1 := inv_step C hreg st t hi (hw t (by simp))
+    rcases hs : step C.env st t with ⟨r, st1⟩
+    rw [hs] at h1
+    have h2 := ih st1 h1 (fun t' ht' => hw t' (by simp [ht']))
+    rcases htr : transition C.env st1 ts with ⟨rs, st2⟩
+    rw [htr] at h2
+    simp only [htr]
+    exact h2
+
 end Mutagen.Proofs.FS
